@@ -2,7 +2,7 @@
 (* WIRE engine=120 fn=dispatch_comp *)
 From Coq Require Import List NArith Bool.
 From RPFT Require Import Base.Sexp Base.PyStr Base.Result Gen.Tables Flow.Flow Flow.Closed Flow.RowSem
-     Comp.Compile Wire.RowSemWire.
+     Comp.Compile Comp.Refine Wire.RowSemWire.
 Import ListNotations.
 Local Open Scope N_scope.
 
@@ -61,6 +61,17 @@ Definition dispatch_comp (fn : N) (args : list sexp) : sexp :=
       | Ok f => L [A 0; enc_bool (flow_closedb f)]
       | Err e => L [A 1; enc_cerr e]
       end
+    | _, _ => s_badinput
+    end
+  | 3, [nm; rows] =>
+    (* the refinement statement on one sheet: (in the fragment?  compiles?  has a reference meaning?  the verified
+       checker accepts the pair?) *)
+    match dec_str nm, dec_list dec_crow rows with
+    | Some n, Some rs =>
+      let c := compile wire_fresh n rs in
+      let r := rowsem nab (map cr_row rs) in
+      L [enc_bool (fragb rs); enc_bool (is_ok c); enc_bool (match r with Some _ => true | None => false end);
+         match c, r with Ok f, Some ref => enc_bool (ref_vs ref f) | _, _ => A 2 end]
     | _, _ => s_badinput
     end
   | _, _ => s_badinput
